@@ -191,6 +191,24 @@ def check_crate(fx, rep, crate, cn):
                         if len(inner_maps) == 1 and not nones and inner_maps[0][1]['dest']['l'] == 0 and cbody.trace(inner_maps[0][1]['args'][0]).get('kind') == 'arg':
                             ok = True
                             det['combinator_form'] = 'Poll::map(Option::map(..))'
+        if not ok and not none_sites and not lagging:
+            # `let item = ready!(inner.poll_next(cx)); Poll::Ready(item.map(build_reply))`: Option::map hands the inner None through and makes none itself
+            for b, t in pn.iter_terms('call'):
+                if b in region and t['callee'].get('name') == 'map' and t['args'] and \
+                        ((op_place(t['args'][0]) or {}).get('ty') or '').startswith(('std::option::Option<', 'core::option::Option<')):
+                    src = pn.trace(t['args'][0])
+                    from_poll = False
+                    if src.get('kind') == 'place':
+                        q_ = src.get('place') or {}
+                        d0 = pn.single_def(q_.get('l')) if q_.get('l') is not None else None
+                        from_poll = bool(d0 and d0[2] == 'call' and d0[0] == pb)
+                    elif src.get('kind') == 'call':
+                        from_poll = src.get('block') == pb
+                    wraps = [1 for bb, ii, ss in pn.iter_assigns() if bb in pn.reachable(b) and ss['place']['l'] == 0 and ss['rv']['k'] == 'aggr' and
+                             ss['rv'].get('variant') == 'Ready' and ss['rv']['ops'] and (op_place(ss['rv']['ops'][0]) or {}).get('l') == t['dest']['l']]
+                    if from_poll and wraps:
+                        ok = True
+                        det['combinator_form'] = 'Poll::Ready(ready!(..).map(..))'
         rep.check(ok, 'R20.2', '%s|%s|end-of-stream-only-on-inner-none' % (cn, pn.path), C.where(pn, pb),
                   'Ready(None) in the broadcast arm is produced only under the inner item\'s None discriminant',
                   'the broadcast arm does not decide end-of-stream by an explicit test of the inner item (accepted idiom: match on the item with a None arm): '
